@@ -20,7 +20,8 @@ theorem placeNameSO_inv {s s' : State} {a n mn sl} (hI : Inv s) (h : placeNameSO
     simp only [AMap.get_set] at hm
     split at hm
     · rename_i hmn; subst hmn; injection hm with hm; subst hm
-      exact ⟨_, ‹getName s m = some _›, by simp only []; omega, by simp only []; exact (‹DymName.owner _ = a›).symm⟩
+      exact ⟨_, ‹getName s m = some _›, by simp only []; omega, by simp only []; exact (‹DymName.owner _ = a›).symm,
+        by intro b hb; cases hb⟩
     · exact hI.so m so hm
 
 /-- remove the sell order of a name, refunding its bid (if any) -/
@@ -50,7 +51,7 @@ theorem cancelNameSO_inv {s s' : State} {a n} (hI : Inv s) (h : cancelNameSO s a
 
 /-- a bid is placed on an existing sell order: previous bid refunded, new bid escrowed -/
 theorem bidPlaced_inv {s : State} {n : Name} {so : SellOrder} (a : Acct) (offer : Nat) (hI : Inv s)
-    (hso : AMap.get s.nameSO n = some so) :
+    (hso : AMap.get s.nameSO n = some so) (hna : ∀ d, s.ns.get n = some d → a ≠ d.owner) :
     Inv { takeBidT s so.bid a offer with nameSO := AMap.set s.nameSO n { so with bid := some ⟨a, offer, 0⟩ } } := by
   have hle := bid_le_sum s n hI.wfN
   have hb : nameBid s n = so.bid := by simp [nameBid, hso]
@@ -66,7 +67,12 @@ theorem bidPlaced_inv {s : State} {n : Name} {so : SellOrder} (a : Acct) (offer 
     simp only [AMap.get_set] at hm
     split at hm
     · rename_i hmn; subst hmn; injection hm with hm; subst hm
-      simpa [takeBidT, toModuleT] using hI.so m so hso
+      obtain ⟨d, hd, h1, h2, _⟩ := hI.so m so hso
+      refine ⟨d, by simpa [takeBidT, toModuleT] using hd, h1, h2, ?_⟩
+      intro b hb
+      simp only [Option.some.injEq] at hb
+      subst hb
+      exact hna d hd
     · simpa [takeBidT, toModuleT] using hI.so m so' hm
 
 theorem completeNameSO_inv {s s' : State} {n : Name} (hI : Inv s) (h : completeNameSO s n = .ok s') : Inv s' := by
@@ -92,7 +98,14 @@ theorem purchaseName_inv {s s' : State} {a n offer} (hI : Inv s) (h : purchaseNa
     rename (s.nameSO.get n = some _) => hso
     rename (takeBid s _ a offer = Except.ok _) => ht
     obtain ⟨rfl, _, _⟩ := takeBid_ok ht
-    have hI2 := bidPlaced_inv a offer hI hso
+    have hown : ∀ d', s.ns.get n = some d' → a ≠ d'.owner := by
+      rename (getName s n = some _) => hd0
+      rename (DymName.owner _ ≠ a) => hne
+      intro d' hd'
+      have hd1 : s.ns.get n = some _ := hd0
+      rw [hd'] at hd1; injection hd1 with hd1; subst hd1
+      exact fun e => hne e.symm
+    have hI2 := bidPlaced_inv a offer hI hso hown
     simp only [takeBidT_nameSO] at h
   · exact completeNameSO_inv hI2 h
   · injection h with h; subst h; exact hI2
